@@ -41,7 +41,7 @@ def check(ctx):
     # distinct by the code locations involved
     def sig(r):
         locs = re.findall(r"^\s+(/\S+?\.go:\d+)", r, re.M)
-        return tuple(l for l in locs if "/repo/" in l or "jrhy/mast" in l)[:4]
+        return tuple(l for l in locs if (REPO.rstrip("/") + "/") in l or "jrhy/mast" in l)[:4]
     by_sig = {}
     harness_only = 0
     for r in reports:
